@@ -16,7 +16,7 @@ namespace
 {
     struct Send
     {
-        int producer{0}; long value{0}; char kind{'t'}; bool result{false};
+        int producer{0}; long value{0}; char kind{'t'}; bool result{false}; int source{0};
         std::uint64_t call_step{0}, return_step{0};
         long dequeue_started_at_call{0};
         bool stopping_before_return{false};     // the run was asked to stop / began stopping before the call returned
@@ -29,10 +29,11 @@ namespace
         char policy{'q'};                      // q queue, b burst, c conflating
         std::vector<std::string> scripts[2];   // per producer: "t<v>" try_send, "b<v>" send_blocking
         int producers{1};
+        int sources{1};                        // push sources in the graph (ops in UPPER case address the second one)
         bool stopper{false};
         // shared state (only one controlled thread runs at a time)
-        PushSourceSender sender;
-        bool sender_ready{false};
+        PushSourceSender sender, sender2;
+        bool sender_ready{false}, sender2_ready{false};
         bool run_returned{false};
         bool stop_requested{false};
         bool stop_returned{false};
@@ -40,9 +41,10 @@ namespace
         bool stopping{false};                  // on_before_stop_graph seen
         bool stopped{false};                   // on_after_stop_graph seen
         std::vector<Send> sends;
-        struct Delivery { long time; long cycle; long value; };
+        struct Delivery { long time; long cycle; long value; int source{0}; };
         std::vector<Delivery> delivered;
         long cycles{0};
+        long dequeue_started2{0};
         long dequeue_started{0};               // evaluations of the source node begun (upper bound of pops for queue policy)
         long accepted_returned{0};
         long inflight{0};
@@ -57,29 +59,32 @@ namespace
     void check_pending(const char *where)
     {
         if (W == nullptr || W->capacity == 0 || W->executor == nullptr || !W->error.empty() || W->stopping) return;
-        auto metrics = W->executor->view().graph().node_at(0).inspection_metrics();
+        for (int si = 0; si < W->sources; ++si)
+        {
+        auto metrics = W->executor->view().graph().node_at(static_cast<std::size_t>(si)).inspection_metrics();
         if (metrics.pending_items && *metrics.pending_items > W->capacity)
             W->error = "accepted but undelivered values (" + std::to_string(*metrics.pending_items) + ") exceed the capacity " + std::to_string(W->capacity) + " (" + where + ")";
+        }
     }
 
     struct Observer final : LifecycleObserver
     {
         void on_before_graph_evaluation(const GraphView &) override { ++W->cycles; check_pending("before cycle"); }
-        void on_before_node_evaluation(const NodeView &view) override { if (view.node_index() == 0) ++W->dequeue_started; }
+        void on_before_node_evaluation(const NodeView &view) override { if (view.node_index() == 0) ++W->dequeue_started; else if (W->sources == 2 && view.node_index() == 1) ++W->dequeue_started2; }
         void on_after_graph_evaluation(const GraphView &) override { check_pending("after cycle"); }
         void on_before_stop_graph(const GraphView &) override { W->stopping = true; }
         void on_after_stop_graph(const GraphView &) override { W->stopped = true; }
         void on_stop_graph_failed(const GraphView &) override { W->stopped = true; }
     };
 
-    NodeBuilder make_sink(const TSValueTypeMetaData &input_schema, const TSValueTypeMetaData &input_ts, bool burst, bool dict)
+    NodeBuilder make_sink(const TSValueTypeMetaData &input_schema, const TSValueTypeMetaData &input_ts, bool burst, bool dict, int source = 0)
     {
         NodeTypeMetaData schema;
         schema.display_name = "c16_sink";
         schema.input_schema = &input_schema;
         schema.node_kind = NodeKind::Sink;
         NodeCallbacks callbacks;
-        callbacks.evaluate = [burst, dict](const NodeView &view, DateTime evaluation_time) {
+        callbacks.evaluate = [burst, dict, source](const NodeView &view, DateTime evaluation_time) {
             auto root = view.input(evaluation_time);
             auto bundle = root.as_bundle();
             auto input = bundle[0];
@@ -95,15 +100,15 @@ namespace
                     if (!map.contains(key.view())) continue;
                     bool seen = false;
                     for (auto &d : W->delivered) if (d.value == k) seen = true;
-                    if (!seen) W->delivered.push_back({t, W->cycles, k});
+                    if (!seen) W->delivered.push_back({t, W->cycles, k, source});
                 }
             }
             else if (burst)
             {
                 auto tuple = input.value().as_list();
-                for (std::size_t i = 0; i < tuple.size(); ++i) W->delivered.push_back({t, W->cycles, static_cast<long>(tuple[i].checked_as<Int>())});
+                for (std::size_t i = 0; i < tuple.size(); ++i) W->delivered.push_back({t, W->cycles, static_cast<long>(tuple[i].checked_as<Int>()), source});
             }
-            else W->delivered.push_back({t, W->cycles, static_cast<long>(input.value().checked_as<Int>())});
+            else W->delivered.push_back({t, W->cycles, static_cast<long>(input.value().checked_as<Int>()), source});
         };
         return NodeBuilder::native(std::move(schema), std::move(callbacks), testing::single_input_endpoint(input_schema, input_ts));
     }
@@ -113,7 +118,7 @@ namespace
     std::vector<long> script_values(const World &w)
     {
         std::vector<long> out;
-        for (int p = 0; p < w.producers; ++p) for (auto &op : w.scripts[p]) out.push_back(std::stol(op.substr(1)));
+        for (int p = 0; p < w.producers; ++p) for (auto &op : w.scripts[p]) out.push_back(std::stol(op.substr(1)));   // (upper-case kinds address the second source)
         return out;
     }
 
@@ -136,8 +141,20 @@ namespace
         };
         GraphBuilder builder;
         builder.add_node(make_push_source_node(*ts_out, std::move(policy), [](PushSourceSender s) { W->sender = std::move(s); W->sender_ready = true; }));
-        builder.add_node(make_sink(*input_schema, *ts_out, burst, dict));
-        builder.add_edge(GraphEdge{.source_node = make_graph_edge_source(0), .source_path = {}, .target_node = 1, .target_path = {0}});
+        if (world.sources == 2)
+        {
+            PushSourcePolicy policy2 = world.policy == 'q' ? make_push_source_queue_policy(*ts_out, world.capacity) : burst ? make_push_source_burst_policy(*ts_out, world.capacity) : make_push_source_conflating_policy(*ts_out);
+            builder.add_node(make_push_source_node(*ts_out, std::move(policy2), [](PushSourceSender s) { W->sender2 = std::move(s); W->sender2_ready = true; }));
+            builder.add_node(make_sink(*input_schema, *ts_out, burst, dict, 0));
+            builder.add_node(make_sink(*input_schema, *ts_out, burst, dict, 1));
+            builder.add_edge(GraphEdge{.source_node = make_graph_edge_source(0), .source_path = {}, .target_node = 2, .target_path = {0}});
+            builder.add_edge(GraphEdge{.source_node = make_graph_edge_source(1), .source_path = {}, .target_node = 3, .target_path = {0}});
+        }
+        else
+        {
+            builder.add_node(make_sink(*input_schema, *ts_out, burst, dict));
+            builder.add_edge(GraphEdge{.source_node = make_graph_edge_source(0), .source_path = {}, .target_node = 1, .target_path = {0}});
+        }
         const DateTime start_time = DateTime{std::chrono::microseconds{1'700'000'000'000'000LL}};
         const std::int64_t start_ns = 1'700'000'000'000'000LL * 1000;
         Observer observer;
@@ -148,7 +165,7 @@ namespace
 
         // payloads are built before the controlled run: constructing a Value takes type-registry locks that are not the subject here
         std::vector<std::vector<Value>> payloads(2);
-        for (int p = 0; p < world.producers; ++p) for (auto &op : world.scripts[p]) payloads[static_cast<std::size_t>(p)].push_back(payload(op[0], std::stol(op.substr(1))));
+        for (int p = 0; p < world.producers; ++p) for (auto &op : world.scripts[p]) payloads[static_cast<std::size_t>(p)].push_back(payload(static_cast<char>(std::tolower(op[0])), std::stol(op.substr(1))));
         std::vector<std::function<void()>> bodies;
         bodies.push_back([&] {
             try { executor->view().run(); }
@@ -157,16 +174,17 @@ namespace
         });
         for (int p = 0; p < world.producers; ++p)
             bodies.push_back([&, p] {
-                vs::gate([&] { return world.sender_ready || world.run_returned; });
+                vs::gate([&] { return (world.sender_ready && (world.sources == 1 || world.sender2_ready)) || world.run_returned; });
                 for (std::size_t oi = 0; oi < world.scripts[p].size(); ++oi)
                 {
                     auto &op = world.scripts[p][oi];
                     Value &pv = payloads[static_cast<std::size_t>(p)][oi];
-                    Send s; s.producer = p; s.kind = op[0]; s.value = std::stol(op.substr(1));
-                    s.call_step = step(); s.dequeue_started_at_call = world.dequeue_started;
+                    Send s; s.producer = p; s.kind = static_cast<char>(std::tolower(op[0])); s.source = std::isupper(static_cast<unsigned char>(op[0])) ? 1 : 0; s.value = std::stol(op.substr(1));
+                    const PushSourceSender &target = s.source == 1 ? world.sender2 : world.sender;
+                    s.call_step = step(); s.dequeue_started_at_call = s.source == 1 ? world.dequeue_started2 : world.dequeue_started;
                     s.stopped_before_call = world.stopped || world.run_returned;
                     ++world.inflight;
-                    try { s.result = s.kind == 'b' ? world.sender.send_blocking(std::move(pv)) : world.sender.try_send(std::move(pv)); }
+                    try { s.result = s.kind == 'b' ? target.send_blocking(std::move(pv)) : target.try_send(std::move(pv)); }
                     catch (const std::exception &e) { if (world.error.empty()) world.error = std::string{"send threw: "} + e.what(); s.result = false; }
                     --world.inflight;
                     s.return_step = step();
@@ -212,7 +230,7 @@ namespace
         long last_cycle = -1;
         for (auto &d : world.delivered) { oc << (d.cycle != last_cycle && last_cycle != -1 ? "|" : "") << d.value << ","; last_cycle = d.cycle; }
         oc << " r=";
-        for (auto &sd : world.sends) oc << sd.producer << sd.kind << sd.value << (sd.result ? "+" : "-") << ",";
+        for (auto &sd : world.sends) oc << sd.producer << sd.kind << (sd.source ? "'" : "") << sd.value << (sd.result ? "+" : "-") << ",";
         r.outcome = oc.str();
         if (s.failure.rfind("replay divergence", 0) == 0) throw verif::HarnessError(s.failure + " (the harness does not control some source of nondeterminism)");
         if (!s.failure.empty()) { r.violation = s.failure; return r; }
@@ -230,19 +248,20 @@ namespace
             pos[d.value] = i;
             if (std::find(all_values.begin(), all_values.end(), d.value) == all_values.end()) { r.violation = "value " + std::to_string(d.value) + " was delivered but never sent"; return r; }
             if (by_value.count(d.value) && by_value[d.value]->kind == 'x') { r.violation = "key " + std::to_string(d.value) + " appeared although it was only ever removed"; return r; }
+            if (by_value.count(d.value) && by_value[d.value]->source != d.source) { r.violation = "value " + std::to_string(d.value) + " was sent to source " + std::to_string(by_value[d.value]->source) + " but delivered by source " + std::to_string(d.source); return r; }
             if (by_value.count(d.value) && !by_value[d.value]->result) { r.violation = "value " + std::to_string(d.value) + " was delivered although its send was refused"; return r; }
             if (d.cycle != last_cycle)
             {
-                if (d.time <= last_t) { r.violation = "deliveries are not in strictly increasing engine times (" + std::to_string(last_t) + " then " + std::to_string(d.time) + ")"; return r; }
+                if (d.time <= last_t && world.delivered[i - 1].cycle != d.cycle) { r.violation = "deliveries are not in strictly increasing engine times (" + std::to_string(last_t) + " then " + std::to_string(d.time) + ")"; return r; }
             }
-            else if (!burst && !dict) { r.violation = "two values (" + std::to_string(world.delivered[i - 1].value) + ", " + std::to_string(d.value) + ") were delivered in one engine cycle"; return r; }
+            else if (!burst && !dict && world.delivered[i - 1].source == d.source) { r.violation = "two values (" + std::to_string(world.delivered[i - 1].value) + ", " + std::to_string(d.value) + ") were delivered in one engine cycle"; return r; }
             last_t = d.time; last_cycle = d.cycle;
         }
         // acceptance order: same producer in program order, or A returned before B was called  =>  A is delivered before B,
         // and B delivered implies A delivered (prefix). Conflation may drop A (superseded) but never reorders.
         for (auto &a : world.sends) for (auto &b : world.sends)
         {
-            if (&a == &b || !a.result || !b.result || dict) continue;
+            if (&a == &b || !a.result || !b.result || dict || a.source != b.source) continue;
             const bool a_before_b = (a.producer == b.producer && a.call_step < b.call_step) || a.return_step < b.call_step;
             if (!a_before_b) continue;
             if (world.policy != 'c' && pos.count(b.value) && !pos.count(a.value)) { r.violation = "value " + std::to_string(b.value) + " was delivered but the earlier accepted value " + std::to_string(a.value) + " was not (not a prefix of the acceptance order)"; return r; }
@@ -258,7 +277,7 @@ namespace
             // upper bound of the queue occupancy at any moment of the call: accepted sends that began before it returned,
             // minus pops certainly completed before it began (source evaluations begun strictly earlier, less the one possibly in flight)
             long accepted_by_return = 0;
-            for (auto &o : world.sends) if (o.result && o.call_step <= sd.return_step) ++accepted_by_return;
+            for (auto &o : world.sends) if (o.result && o.source == sd.source && o.call_step <= sd.return_step) ++accepted_by_return;
             const long popped_lower = burst ? 0 : std::max(0L, sd.dequeue_started_at_call - 1);
             const long upper = accepted_by_return - popped_lower;
             if (upper < static_cast<long>(world.capacity)) { r.violation = "try_send(" + std::to_string(sd.value) + ") was refused although the queue cannot have been full (at most " + std::to_string(upper) + " of " + std::to_string(world.capacity) + " pending)"; return r; }
@@ -306,6 +325,7 @@ namespace
             if (k == "cap") w.capacity = std::stoul(v);
             else if (k == "pol") w.policy = v.empty() ? 'q' : v[0];
             else if (k == "stop") w.stopper = v == "1";
+            else if (k == "src") w.sources = std::stoi(v);
             else if (k == "bound") bound = std::stoi(v);
             else if (k == "p")
             {
@@ -332,7 +352,7 @@ static void warm_up()
     int b; std::vector<int> p; bool hp;
     std::vector<vs::ChoicePoint> trace;
     // (worker threads persist across executions and the runtime keeps per-thread type caches: every worker sends once here)
-    for (const char *d : {"pol=q;cap=2;p=t1,b2/t3,b4;stop=1", "pol=b;cap=2;p=t1,b2/t3,b4;stop=1", "pol=c;cap=0;p=t1,b2/t3,b4;stop=1", "pol=d;cap=0;p=t1,x9,b2/x8,t3,b4;stop=1", "pol=q;cap=1;p=b1,b2/b3,b4;stop=0"}) (void)execute(parse_config(d, b, p, hp), {}, trace);
+    for (const char *d : {"pol=q;cap=2;p=t1,b2/t3,b4;stop=1", "pol=b;cap=2;p=t1,b2/t3,b4;stop=1", "pol=c;cap=0;p=t1,b2/t3,b4;stop=1", "pol=d;cap=0;p=t1,x9,b2/x8,t3,b4;stop=1", "pol=q;cap=1;p=b1,b2/b3,b4;stop=0", "pol=q;src=2;cap=2;p=t1,B2/T3,b4;stop=1"}) (void)execute(parse_config(d, b, p, hp), {}, trace);
 }
 
 std::optional<std::string> verif_run_case(verif::Ctx &, const std::string &desc)
@@ -360,6 +380,16 @@ void verif_enumerate(verif::Ctx &ctx)
             const bool small = sends <= 2 || (stop == 0 && sends <= 3);
             configs.push_back(std::string{"pol=d;cap=0;p="} + ps + ";stop=" + std::to_string(stop) + ";bound=" + std::to_string(th ? (small ? 3 : 2) : (small ? 2 : 1)));
         }
+    // two push sources in one graph: a backlog on the first must not be swallowed by the second one's turn in the push phase
+    for (const char *p : {"t1,t2", "b1,b2,T3", "t1,t2/T3", "b1,b2/B3", "T1,T2/t3"})
+        for (std::size_t cap : {std::size_t{0}, std::size_t{2}})
+            for (int stop : {0, 1})
+            {
+                const std::string ps = p;
+                const int sends = static_cast<int>(std::count_if(ps.begin(), ps.end(), [](char ch) { return std::isalpha(static_cast<unsigned char>(ch)) != 0; }));
+                const bool small = sends <= 2 || (stop == 0 && sends <= 3);
+                configs.push_back(std::string{"pol=q;src=2;cap="} + std::to_string(cap) + ";p=" + ps + ";stop=" + std::to_string(stop) + ";bound=" + std::to_string(th ? (small ? 3 : 2) : (small ? 2 : 1)));
+            }
     for (const char *pol : {"q", "b", "c"})
         for (std::size_t cap : {std::size_t{1}, std::size_t{2}, std::size_t{0}})
             for (const char *p : {"t1", "b1,b2", "t1,t2", "t1/t2", "b1/b2", "b1,b2/t3", "t1,b2/b3", "b1,b2/b3,b4", "b1,b2,b3/b4"})
